@@ -693,7 +693,7 @@ Qed.
 
 Lemma ty_ok_spec env t v : ty_ok env t v = true <-> ty_sem pat_sem env t v.
 Proof.
-  destruct t as [k r l|sf r l|r|r l|r l|f e l|f64 fr l|r l|r l|tr l|od ts l|fl orl|orr l], v; cbn [ty_ok ty_sem];
+  destruct t as [k r l|sf r l|r|r l|r l|f e l|f64 fr l|r l|r l|tr l|od ts l|rn fl orl|rn orr l], v; cbn [ty_ok ty_sem];
     try tauto;
     try (destruct r as [r|]); try (destruct f as [f|]); try tauto;
     first [ apply int_rule_ok_spec | apply str_rule_ok_spec | apply within_spec | apply enum_ok_spec
@@ -718,7 +718,7 @@ Proof. destruct t; cbn; split; intro H; try discriminate; try tauto; try reflexi
 
 Lemma is_primary_ty_spec t : is_primary_ty t = true <-> primary_key t.
 Proof.
-  destruct t as [k r l|sf r l|r|r l|r l|f e l|f64 fr l|r l|r l|tr l|od ts l|fl orl|orr l]; cbn; try (split; [discriminate|tauto]).
+  destruct t as [k r l|sf r l|r|r l|r l|f e l|f64 fr l|r l|r l|tr l|od ts l|rn fl orl|rn orr l]; cbn; try (split; [discriminate|tauto]).
   destruct e as [[ty tn]|]; cbn; [|split; [discriminate|tauto]].
   destruct ty as [[[|]|p n]|]; split; intro H; try discriminate; try reflexivity; inversion H.
 Qed.
@@ -952,7 +952,7 @@ Lemma scalar_sem env t w v :
   item_ok (defined_numbers env) w v = ty_ok re_match env t v.
 Proof.
   intros Hwf Hw Hty. unfold item_ok.
-  destruct t as [k r l|sf r l|r|r l|r l|f e l|f64 fr l|r l|r l|tr l|od ts l|fl orl|orr l]; cbn [write_field] in Hw.
+  destruct t as [k r l|sf r l|r|r l|r l|f e l|f64 fr l|r l|r l|tr l|od ts l|rn fl orl|rn orr l]; cbn [write_field] in Hw.
   - (* integer *)
     apply obind_ok in Hw as [vo [Hv Hw]]. inversion Hw; subst w; clear Hw. cbn [fw_val].
     destruct v; try discriminate. destruct r as [r|].
@@ -1014,7 +1014,7 @@ Lemma write_field_compiles env t w :
   end = fty_patterns_ok t.
 Proof.
   intro Hw.
-  destruct t as [k r l|sf r l|r|r l|r l|f e l|f64 fr l|r l|r l|tr l|od ts l|fl orl|orr l]; cbn [write_field] in Hw; try (destruct fr; [discriminate Hw|]);
+  destruct t as [k r l|sf r l|r|r l|r l|f e l|f64 fr l|r l|r l|tr l|od ts l|rn fl orl|rn orr l]; cbn [write_field] in Hw; try (destruct fr; [discriminate Hw|]);
     try (apply obind_ok in Hw as [x [Hx Hw]]);
     inversion Hw; subst w; cbn [fw_val fty_patterns_ok]; try reflexivity.
   - destruct r as [r|].
@@ -1035,7 +1035,7 @@ Lemma write_field_primary env t w :
   match fw_key w with Some k => kx_primary k | None => false end = is_primary_ty t.
 Proof.
   intro Hw.
-  destruct t as [k r l|sf r l|r|r l|r l|f e l|f64 fr l|r l|r l|tr l|od ts l|fl orl|orr l]; cbn [write_field] in Hw; try (destruct fr; [discriminate Hw|]);
+  destruct t as [k r l|sf r l|r|r l|r l|f e l|f64 fr l|r l|r l|tr l|od ts l|rn fl orl|rn orr l]; cbn [write_field] in Hw; try (destruct fr; [discriminate Hw|]);
     try (apply obind_ok in Hw as [x [Hx Hw]]);
     inversion Hw; subst w; cbn [fw_key is_primary_ty]; try reflexivity.
   destruct e as [[ty tn]|]; [|reflexivity]. cbn. destruct ty as [[[|]|]|]; reflexivity.
@@ -1045,7 +1045,7 @@ Lemma write_field_msg env t w :
   write_field env t = Ok w -> is_msg_kind (fw_kind w) = is_msg_ty t.
 Proof.
   intro Hw.
-  destruct t as [k r l|sf r l|r|r l|r l|f e l|f64 fr l|r l|r l|tr l|od ts l|fl orl|orr l]; cbn [write_field] in Hw; try (destruct fr; [discriminate Hw|]);
+  destruct t as [k r l|sf r l|r|r l|r l|f e l|f64 fr l|r l|r l|tr l|od ts l|rn fl orl|rn orr l]; cbn [write_field] in Hw; try (destruct fr; [discriminate Hw|]);
     try (apply obind_ok in Hw as [x [Hx Hw]]);
     inversion Hw; subst w; cbn [fw_kind is_msg_ty]; try reflexivity.
   - destruct k; reflexivity.
@@ -1067,7 +1067,7 @@ Lemma write_field_noreq env t w c :
   write_field env t = Ok w -> fw_val w = Some c -> c_req c = false.
 Proof.
   intros Hwt. revert c.
-  destruct t as [k r l|sf r l|r|r l|r l|f e l|f64 fr l|r l|r l|tr l|od ts l|fl orl|orr l]; cbn [write_field] in Hwt; try (destruct fr; [discriminate Hwt|]);
+  destruct t as [k r l|sf r l|r|r l|r l|f e l|f64 fr l|r l|r l|tr l|od ts l|rn fl orl|rn orr l]; cbn [write_field] in Hwt; try (destruct fr; [discriminate Hwt|]);
     try (apply obind_ok in Hwt as [x [Hx Hwt]]);
     try (destruct r; try discriminate);
     inversion Hwt; subst w; cbn [fw_val]; intros c Ev; try discriminate;
@@ -1395,12 +1395,7 @@ Proof.
 Qed.
 
 (* ---- lifted to messages -------------------------------------------------------------- *)
-Fixpoint typed_obj (ds : list prop) (fvs : list fvalue) : bool :=
-  match ds, fvs with
-  | [], [] => true
-  | d :: r, v :: s => fvalue_typed d v && typed_obj r s
-  | _, _ => false
-  end.
+(* typed_obj: model/Validate.v *)
 
 Lemma vworst_accept a b : vworst a b = VAccept <-> a = VAccept /\ b = VAccept.
 Proof. destruct a as [| |[|]], b as [| |[|]]; cbn; split; try intros [? ?]; try congruence; auto. Qed.
@@ -1516,7 +1511,7 @@ Qed.
 
 (* witness 1: array of objects with uniqueItems = true, one item *)
 Definition w_unique_obj : prop :=
-  P [97%N] false false (PArray (Some (AR None None (Some true))) None (TObject false None)) [].
+  P [97%N] false false (PArray (Some (AR None None (Some true))) None (TObject [66%N;97%N;114%N] false None)) [].
 (* witness 2: a string whose pattern is "[" *)
 Definition w_bad_pattern : prop :=
   P [97%N] false false (PSingle (TStr None (Some (SR (Some [91%N]) None None)) None)) [].
